@@ -120,10 +120,17 @@ pub fn walk_iter<T, I: Iterator<Item = T>>(o: W, mut it: I, acts: &[usize], show
         }
         let (c, a) = (acts[k], acts[k + 1]);
         k += 2;
+        let _ = it.size_hint(); // a public entry point in whatever state the script left the iterator
         match c {
             0 => opt(o, it.next(), show)?,
-            1 => opt(o, it.nth(a), show)?,
-            2 => list(o, it.by_ref().take(a), show)?,
+            1 => {
+                opt(o, it.nth(a), show)?;
+                let _ = it.size_hint();
+            }
+            2 => {
+                list(o, it.by_ref().take(a), show)?;
+                let _ = it.size_hint();
+            }
             3 => {
                 write!(o, "{}", it.count())?;
                 break;
